@@ -744,7 +744,10 @@ func checkC06(p *core.Program, r *core.Report) {
 		}
 		dir := map[string]bool{}
 		if q != nil {
-			for _, cs := range core.Calls(reeval, false) {
+			// the Add/Remove may sit in a helper of the package that is handed the group and the answer: its parameters
+			// are resolved to what ReevaluateQueryBasedGroups passes (c03BoundCalls)
+			for _, bc := range c03BoundCalls(reeval, 2) {
+				cs := bc.Site
 				o := core.CalleeObj(cs.Common())
 				if o == nil {
 					continue
@@ -754,14 +757,11 @@ func checkC06(p *core.Program, r *core.Report) {
 					continue
 				}
 				args := cs.Common().Args
-				if len(args) < 2 || args[len(args)-1] != q.Call.Args[0] {
+				if len(args) < 2 || bc.Actual(args[len(args)-1]) != q.Call.Args[0] {
 					continue
 				}
-				for _, ce := range core.ControllingConds(cs.Instr.Block()) {
+				for _, ce := range bc.Conds {
 					cond, taken := ce.Cond, ce.Taken
-					if un, ok := cond.(*ssa.UnOp); ok && un.Op == token.NOT {
-						cond, taken = un.X, !taken
-					}
 					if cond == ssa.Value(q) {
 						if nm == "flows.GroupList.Add" && taken {
 							dir["add"] = true
